@@ -10,7 +10,7 @@ use boa_engine::object::builtins::{JsArray, JsMap};
 use boa_engine::object::ObjectInitializer;
 use boa_engine::property::{Attribute, PropertyDescriptor, PropertyKey};
 use boa_engine::value::Type;
-use boa_engine::{js_string, native_function::NativeFunction, Context, JsBigInt, JsError, JsValue, Source};
+use boa_engine::{js_string, native_function::NativeFunction, Context, JsBigInt, JsError, JsObject, JsValue, Source};
 use boa_engine::{JsArgs, JsData, JsResult};
 use boa_gc::{empty_trace, Finalize, Trace};
 use std::collections::HashMap;
@@ -144,8 +144,27 @@ impl ECMAScriptDatamodel {
     }
 
     pub fn js_to_data_value(value: &JsValue, ctx: &mut Context) -> Result<Data, String> {
+        Self::js_to_data_value_checked(value, ctx, &mut Vec::new())
+    }
+
+    /// Conversion with the objects that are currently being converted (the path from the root
+    /// value): an object that contains itself has no representation as Data.
+    fn js_to_data_value_checked(value: &JsValue, ctx: &mut Context, path: &mut Vec<JsObject>) -> Result<Data, String> {
         #[cfg(feature = "Debug")]
         debug!("js2d {:?} -> {:?}", value, value.get_type());
+        if let Some(obj) = value.as_object() {
+            if path.iter().any(|p| JsObject::equals(p, obj)) {
+                return Err("Can't convert a cyclic object to Data".to_string());
+            }
+            path.push(obj.clone());
+            let result = Self::js_to_data_value_unchecked(value, ctx, path);
+            path.pop();
+            return result;
+        }
+        Self::js_to_data_value_unchecked(value, ctx, path)
+    }
+
+    fn js_to_data_value_unchecked(value: &JsValue, ctx: &mut Context, path: &mut Vec<JsObject>) -> Result<Data, String> {
         match value.get_type() {
             Type::Undefined => Ok(Data::None()),
             Type::Null => Ok(Data::Null()),
@@ -169,7 +188,7 @@ impl ECMAScriptDatamodel {
                         let mut dv = Vec::with_capacity(len);
                         for i in 0..len {
                             let v = ar.get(i, ctx).unwrap();
-                            if let Ok(av) = Self::js_to_data_value(&v, ctx) {
+                            if let Ok(av) = Self::js_to_data_value_checked(&v, ctx, path) {
                                 dv.push(create_data_arc(av))
                             }
                         }
@@ -190,7 +209,7 @@ impl ECMAScriptDatamodel {
                             #[cfg(feature = "Debug")]
                             debug!("key '{}'", key);
                             let js = obj.get(key.clone(), ctx).unwrap();
-                            match Self::js_to_data_value(&js, ctx) {
+                            match Self::js_to_data_value_checked(&js, ctx, path) {
                                 Err(err) => {
                                     warn!("{}", err)
                                 }
